@@ -5,6 +5,12 @@
 (* the callback, in one or several invocations (flush timing is open), the   *)
 (* rest stays buffered.  ClearMsgs must pass everything.  Design variables   *)
 (* cur / cnt are unused here.  Pack ids are per batcher 1, 2, 3, ...         *)
+(* The driver's callback may edit the packs it is handed in place (e.mut,    *)
+(* measured byte delta e.delta, as the production write callback does); the  *)
+(* statement gives the callback that freedom and still demands the counter   *)
+(* clause: e.global, read after the call has returned, is zero whenever the  *)
+(* ghost buffers of all batchers are empty (ZeroWhenEmpty).  What a          *)
+(* delivered pack weighs afterwards is of no concern to the contract.        *)
 EXTENDS Packer, IOUtils, SequencesExt
 
 Traces == ndJsonDeserialize(IOEnv.TRACE_FILE)
@@ -27,6 +33,7 @@ TStep ==
        IN
        /\ p \in Batchers
        /\ e.op \in {"recv", "clear"}
+       /\ e.mut \in Muts
        /\ (e.op = "recv" => e.id = nArr[p] + 1)
        \* what the callback saw is a prefix of the buffered packs in arrival order
        /\ Len(flat) <= Len(all)
